@@ -252,8 +252,8 @@ Lemma text_cell_ok : forall p s offs n d j,
   let w := sp_col b - c0 in
   c0 <= col < c0 + w /\
   (w = 1 -> T = slice s a b) /\
-  (w <> 1 -> col = c0 -> T = slice s a b \/ T = [32]) /\
-  (w <> 1 -> col <> c0 -> T = [] \/ T = [32]).
+  (w <> 1 -> col = c0 -> (T = slice s a b /\ offs <= c0 /\ c0 + w <= offs + n) \/ T = [32]) /\
+  (w <> 1 -> col <> c0 -> (T = [] /\ offs <= c0 /\ c0 + w <= offs + n) \/ T = [32]).
 Proof.
   intros p s offs n d j Hv Ho Hn Hw Hj. cbv zeta.
   assert (V := text_valid_valid s Hv). rewrite text_width_tw in Hw.
@@ -330,12 +330,22 @@ Proof.
   destruct (lay_at A c combs R VA Hc1 Z0 (starts_base_firstn _ rest Sb)) as (LA1 & LA2).
   rewrite <- D in LA1, LA2. rewrite TA in LA1, LA2.
   assert (Hcc : c0 <= col) by exact Sa1.
+  assert (Hc01 : c1 <= c0).
+  { assert (Hm := tw_firstn_mono s k1 ka V K1). rewrite <- Epre in Hm. fold c0 c1 in Hm. exact Hm. }
+  assert (Hkb : c0 + cpw c <= c2).
+  { assert (X : forall s', s' = pre ++ (c :: combs) ++ rest ->
+                tw (firstn (ka + S (length combs)) s') = tw pre + cpw c).
+    { intros s' ->. rewrite app_assoc. rewrite firstn_app.
+      rewrite firstn_all2 by (rewrite app_length; cbn [length]; lia).
+      replace (ka + S (length combs) - length (pre ++ c :: combs))%nat with 0%nat by (rewrite app_length; cbn [length]; lia).
+      cbn [firstn]. rewrite app_nil_r, tw_app. cbn [tw]. rewrite (tw_zerow combs Z0). lia. }
+    specialize (X s Es). assert (Hm := tw_firstn_mono s _ k2 V K3). rewrite X in Hm. fold c0 c2 in Hm. exact Hm. }
   destruct (Z.eq_dec col c0) as [E0|N0].
   - assert (ET : T = c :: combs).
     { rewrite R3. replace (col - c1) with (c0 - c1) by lia. exact LA1. }
-    split; [intros _; exact ET|]. split; [intros _ _; left; exact ET|]. intros _ Hne. lia.
+    split; [intros _; exact ET|]. split; [intros _ _; left; split; [exact ET|lia]|]. intros _ Hne. lia.
   - assert (cpw c = 2 /\ col = c0 + 1) by (unfold col in *; lia). destruct H as (W2 & Ecol).
-    split; [intros; lia|]. split; [intros _ Hc0; lia|]. intros _ _. left.
+    split; [intros; lia|]. split; [intros _ Hc0; lia|]. intros _ _. left. split; [|lia].
     rewrite R3. replace (col - c1) with (c0 - c1 + 1) by lia. exact (LA2 W2).
 Qed.
 
@@ -394,8 +404,8 @@ Proof.
     destruct (Z.eqb_spec (sp_col b - sp_col a) 1) as [W1|W1].
     + cbn [cell_meets]. rewrite (Q1 W1), list_eqb_refl, Pe. reflexivity.
     + destruct (Z.eqb_spec col (sp_col a)) as [E0|N0]; cbn [cell_meets].
-      * destruct (Q2 W1 E0) as [->| ->]; rewrite list_eqb_refl, ?orb_true_r, Pe; reflexivity.
-      * destruct (Q3 W1 N0) as [->| ->]; rewrite Pe; reflexivity.
+      * destruct (Q2 W1 E0) as [(-> & _)| ->]; rewrite list_eqb_refl, ?orb_true_r, Pe; reflexivity.
+      * destruct (Q3 W1 N0) as [(-> & _)| ->]; rewrite Pe; reflexivity.
   - (* erase *)
     rewrite nth_repeat_in by lia. cbn [cell_meets t_text t_pen]. rewrite list_eqb_refl, pen_equiv_canon_l. reflexivity.
   - specialize (K3 eq_refl). subst n. replace (x - i) with 0 by lia. cbn [Z.to_nat nth cell_meets t_text t_pen].
